@@ -414,10 +414,15 @@ def rule_T3(ctx):
     found = None
     for g in scope:
         pmg = parents(g.node)
-        for asg in [n for n in ast.walk(g.node) if isinstance(n, ast.Assign) and len(n.targets) == 1 and isinstance(n.targets[0], ast.Name) and isinstance(n.value, ast.Call) and isinstance(n.value.func, ast.Attribute) and n.value.func.attr == "exception"]:
-            var = asg.targets[0].id
+        binds = [(n.targets[0].id, None) for n in ast.walk(g.node) if isinstance(n, ast.Assign) and len(n.targets) == 1 and isinstance(n.targets[0], ast.Name) and isinstance(n.value, ast.Call) and isinstance(n.value.func, ast.Attribute) and n.value.func.attr == "exception"]
+        # (`if (exc := future.exception()) is not None: raise exc`: the binding inside the test)
+        binds += [(n.target.id, u(n).replace(" ", "")) for n in ast.walk(g.node) if isinstance(n, ast.NamedExpr) and isinstance(n.value, ast.Call) and isinstance(n.value.func, ast.Attribute) and n.value.func.attr == "exception"]
+        for var, walrus in binds:
             for ra in [n for n in ast.walk(g.node) if isinstance(n, ast.Raise) and n.exc is not None and u(n.exc) == var]:
                 gs = [(u(t).replace(" ", ""), pol) for t, pol in guards_of(ra, pmg)]
+                if walrus is not None:
+                    w_ = walrus if walrus.startswith("(") else "(" + walrus + ")"
+                    gs = [(t.replace(w_, var), pol) for t, pol in gs]
                 if any((t == var + "isnotNone" and pol) or (t == var + "isNone" and not pol) or (t == var and pol) for t, pol in gs):
                     found = (g, ra)
     ok = found is not None
